@@ -295,7 +295,15 @@ lzma_decode(void *coder_ptr, lzma_dict *restrict dictptr,
 	// EOPM is always required (not just allowed) when
 	// the uncompressed size isn't known. When uncompressed size
 	// is known, eopm_is_valid may be set to true later.
-	bool eopm_is_valid = coder->uncompressed_size == LZMA_VLI_UNKNOWN;
+	//
+	// If all the output of a known-size stream has already been
+	// produced and the end marker is allowed, this call may be resuming
+	// in the middle of the end marker (the input ran out inside it on
+	// the previous call): then eopm_is_valid was set on that earlier
+	// call and must not be lost now.
+	bool eopm_is_valid = coder->uncompressed_size == LZMA_VLI_UNKNOWN
+			|| (coder->uncompressed_size == 0
+				&& coder->allow_eopm);
 
 	// If uncompressed size is known and there is enough output space
 	// to decode all the data, limit the available buffer space so that
